@@ -2495,7 +2495,11 @@ def run(chk: core.Check) -> None:
         gfails += fl_
         gsamples += sm_
     # the environment gate: every history of <= MaxHist evaluations through one object
-    epaths = envgate_paths(g.states, g.init, out, 1 if tier == 'quick' else 3)
+    epaths = envgate_paths(g.states, g.init, out, 1)          # exhaustive: at most one change of os.environ
+    if tier == 'thorough':                                    # plus a seeded sample of the histories with two
+        extra = [p_ for p_ in envgate_paths(g.states, g.init, out, 2)
+                 if sum(1 for (_, e) in p_ if e[1] in ('SetVar', 'UnsetVar')) == 2]
+        epaths += rnd.sample(extra, min(20000, len(extra)))
     estates = g.states
     estats: collections.Counter = collections.Counter()
     for st_, fl_, sm_ in core.pool_map(envgate_worker, [(estates, ch, chk.seed) for ch in core.chunked(epaths, 8)], procs=8):
